@@ -5,7 +5,7 @@ use crate::ops::*;
 use crate::streams::*;
 use crate::{Env, PropDef};
 use vcore::engine::*;
-use vcore::En;
+use vcore::{fail, En};
 
 pub type Case = RCase;
 
@@ -17,6 +17,7 @@ buffered reader (bits_in_buffer = 0..2W-1, built by a read, an optional look-ahe
 0..=2W+2 and larger, peek_bits 1..=W (<=32 unbuffered), clone-and-diverge) x sentinel reads, on several data patterns, endiannesses and backends; on backends with a real end additionally with \
 the data ending in the very word in which the operation ends. \
 Random part: proptest byte strings decoded into (configuration, pattern image, history of reads/unaries/skips/peeks/clones), shrunk on failure. \
+Huge part: unary codes of 2^32-1, 2^32, 2^32+1 and 2^32+69 zeros read from a synthetic backend (value and position). \
 Oracle: the bit model from the model position: value of every read and peek (peek repeated), exact advance, clone independence, zeros beyond the \
 end of zero-extending backends, Err (never a value) when a strict backend runs out. Non-trivial: an operation refilled a non-empty buffer, or \
 spanned more than one word, or read 64 bits from an empty buffer, or ran with more than one word buffered, or a unary crossed a word, or the \
@@ -29,6 +30,83 @@ unbuffered reader needed two words; distinct = distinct (configuration, image, h
     replay,
     from_bytes: Some(from_bytes),
 };
+
+/// A unary code longer than 2^32 bits read from a synthetic zero-extended backend (all zero words except the one
+/// holding the terminating one bit): `pre` bits are read first, then read_unary() must return x and leave the
+/// reader at pre + x + 1.
+#[derive(Clone, Copy, PartialEq, Eq, Hash, Debug, serde::Serialize, serde::Deserialize)]
+pub struct HugeUnary {
+    pub e: En,
+    pub r64: bool,
+    pub pre: u8,
+    pub x: u64,
+}
+
+struct Synth<W> {
+    pos: u64,
+    one_word: u64,
+    word: W,
+}
+macro_rules! impl_synth {
+    ($W:ty) => {
+        impl dsi_bitstream::traits::WordRead for Synth<$W> {
+            type Error = std::convert::Infallible;
+            type Word = $W;
+            fn read_word(&mut self) -> Result<$W, Self::Error> {
+                let w = if self.pos == self.one_word { self.word } else { 0 };
+                self.pos += 1;
+                Ok(w)
+            }
+        }
+        impl dsi_bitstream::traits::WordSeek for Synth<$W> {
+            type Error = std::convert::Infallible;
+            fn word_pos(&mut self) -> Result<u64, Self::Error> {
+                Ok(self.pos)
+            }
+            fn set_word_pos(&mut self, p: u64) -> Result<(), Self::Error> {
+                self.pos = p;
+                Ok(())
+            }
+        }
+    };
+}
+impl_synth!(u64);
+impl_synth!(u32);
+
+pub fn check_huge_unary(h: &HugeUnary) -> CheckResult {
+    use dsi_bitstream::prelude::*;
+    let mut o = Outcome::new();
+    let p = h.pre as u64 + h.x; // stream position of the terminating one
+    macro_rules! go {
+        ($E:ty, $W:ty, $be:expr) => {{
+            let wb = <$W>::BITS as u64;
+            let idx = (p % wb) as u32;
+            // value of the word in stream order, then as the backend stores it (the reader converts with to_be / to_le)
+            let word: $W = if $be { ((1 as $W) << (wb as u32 - 1 - idx)).to_be() } else { ((1 as $W) << idx).to_le() };
+            let mut rd = BufBitReader::<$E, _>::new(Synth::<$W> { pos: 0, one_word: p / wb, word });
+            match rd.read_bits(h.pre as usize) {
+                Ok(0) => {}
+                other => fail!("huge_unary/prefix", "{:?}: the {} zero bits before the code read as {:?}", h, h.pre, other.map_err(|e| e.to_string())),
+            }
+            match rd.read_unary() {
+                Ok(v) if v == h.x => {}
+                other => fail!("huge_unary/value", "{:?}: read_unary returned {:?}", h, other.map_err(|e| e.to_string())),
+            }
+            match rd.bit_pos() {
+                Ok(q) if q == p + 1 => {}
+                other => fail!("huge_unary/position", "{:?}: the reader is at {:?} after the code, expected {}", h, other.map_err(|e| e.to_string()), p + 1),
+            }
+        }};
+    }
+    match (h.e, h.r64) {
+        (En::BE, true) => go!(BE, u64, true),
+        (En::BE, false) => go!(BE, u32, true),
+        (En::LE, true) => go!(LE, u64, false),
+        (En::LE, false) => go!(LE, u32, false),
+    }
+    o.nt("unary_longer_than_2^32");
+    Ok(o)
+}
 
 pub fn check_case(c: &Case, env: &Env) -> CheckResult {
     let (n, _b) = check_rcase(c, env)?;
@@ -200,6 +278,18 @@ fn run(ctx: &Ctx, env: &Env) -> Stats {
             part.finish()
         }));
     }
+    jobs.push(Box::new(move |ctx: &Ctx| {
+        let mut part = Part::new(ctx, "huge_unary", "unary codes longer than 2^32 bits read from a synthetic zero-extended backend", true);
+        for e in En::ALL {
+            for (r64, pre, x) in [(true, 3u8, (1u64 << 32) + 69), (true, 0, 1 << 32), (true, 61, (1 << 32) - 1), (false, 5, (1 << 32) + 1)] {
+                if ctx.quick() && !r64 && e == En::BE {
+                    continue;
+                }
+                part.check(&HugeUnary { e, r64, pre, x }, &|h: &HugeUnary| check_huge_unary(h));
+            }
+        }
+        part.finish()
+    }));
     run_jobs(ctx, jobs)
 }
 
@@ -215,6 +305,10 @@ pub fn gen_case(s: &mut Src, max_ops: usize) -> Case {
 }
 
 fn replay(v: &serde_json::Value, env: &Env) -> CheckResult {
+    if v.get("x").is_some() && v.get("r64").is_some() {
+        let h: HugeUnary = serde_json::from_value(v.clone()).map_err(|e| Failure::new("replay/parse", e.to_string()))?;
+        return run_guarded(&h, &|h: &HugeUnary| check_huge_unary(h));
+    }
     let c: Case = serde_json::from_value(v.clone()).map_err(|e| Failure::new("replay/parse", e.to_string()))?;
     run_guarded(&c, &|c: &Case| check_case(c, env))
 }
